@@ -8,30 +8,49 @@ from vlib import core
 TRUST = ("Lean 4.33 kernel; axioms at most propext/Classical.choice/Quot.sound (audited per run); "
          "hand-written model tied to the C++ by the correspondence harness (differential, generator-bounded); ")
 MANIFEST = dict(
-  text=("Theorems (Props/C19.lean) about an executable model of the importers' logic, for every list of parsed records, every "
-        "dimension argument, batch size and value type: the LibSVM logic with the proposed repair returns the library's "
-        "exception or a well-formed dataset (equal dimensions = shape, sparse indices increasing and in range, labels below "
-        "numberOfClasses, one element per record, batches adding up and bounded) and never writes out of bounds "
-        "(import_wellformed_or_error_svm, sparse_writes_in_bounds); the logic as it is in the tree does so for strictly "
-        "increasing indices only (sparse_writes_in_bounds_partial, with decide-checked out-of-bounds / empty-input witnesses) and "
-        "agrees with the repaired one on such inputs (repaired_eq_current); the three CSV overload families return the "
-        "exception or a well-formed dataset with batches <= requested (import_wellformed_or_error_csv_*, via lemmas about "
-        "optimalBatchSizes); exported records are read back unchanged at token level (csv_roundtrip, csv_roundtrip_regression, libsvm_roundtrip); the PEG model of the eight phrase_parse grammars never loops without consuming input (parser_total). "
-        "The model — a PEG-with-skipper interpreter with the phrase_parse grammars of Csv.cpp/SparseData.cpp, spirit's numeric "
-        "lexers, exact decimal->double conversion, and the post-parse logic — is tied to the real importers by an exact "
-        "line-by-line correspondence on grammar-directed files, byte-level mutations and exporter->importer round trips, for all "
-        "14 LibSVM/CSV overloads, under ASan/UBSan with an allocation limit and a watchdog."),
-  note=TRUST + "boost::spirit's own parsing and memory safety are runtime evidence only (sanitizers + watchdog over the generated files); 'never hangs' is a theorem "
-       "about the PEG model of the grammars (parser_total), for the real parsers it is the watchdog; "
-       "numeric values are compared only for tokens of at most 15 digits and one-digit exponents (others run for memory safety + oracle only); "
-       "the scalar CSV readers (Data<int/unsigned/float/double>) are not covered; libsvm_roundtrip is proved for regression labels and dense export (classification label mapping 2l-1 / l+1 only exercised by the rt stream).",
-  technique="Lean 4 proof about an executable importer model + differential correspondence with the C++ (ASan/UBSan)",
-  design="§6 C19")
+  text=("Theorems (Props/C19.lean) about an executable model of the importers and exporters. FROM BYTES, for every byte sequence and every "
+        "configuration: the models of importSparseData (line splitting, PEG model of the record grammar, index-order check, dimension / "
+        "zero-base / label logic, dense or sparse, classification or regression, any highestIndex and batch size) and of the three "
+        "csvStringToData families (PEG model of the seven phrase_parse grammars, then row/label/batch logic; any separator, comment "
+        "character, label position, number of outputs, maximum batch size incl. 0 = unlimited) return the library's exception, bad_alloc "
+        "(dense LibSVM vectors beyond the allocation limit) or a well-formed dataset — equal dimensions = shape, sparse indices increasing "
+        "and in range, labels below numberOfClasses, one element per record, batches adding up and bounded — and never write out of bounds "
+        "(import_bytes_wellformed_or_error_svm, import_bytes_wellformed_or_error_csv, on top of import_wellformed_or_error*, "
+        "sparse_writes_in_bounds; file overloads = string overloads on a suffix: dropTitleLines_suffix). No theorem is `_partial` any more: "
+        "the sortedness hypothesis belonged to the pre-fix LibSVM logic, kept as history (legacy_writes_in_bounds_of_sorted + decide-checked "
+        "witnesses). The PEG model never loops without consuming input (parser_total). Round trip at token level for all datasets: "
+        "csv_roundtrip (class 0 present, else the importer's documented shift: csv_roundtrip_shift_witness), csv_roundtrip_regression, "
+        "libsvm_roundtrip. "
+        "The model — PEG-with-skipper interpreter, spirit 1.83's numeric lexers with every rounding of real_impl/scale (uint64 accumulator, "
+        "pow10 table, compensate_roundoff, exponent limits), exact IEEE rounding, the post-parse logic, and the exporters as BYTE printers "
+        "with the number formatting they rely on (%.10e / %.10g / %.6g by exact decimal conversion, setw padding, inf/nan, -1/+1 and +1 "
+        "label mappings, sortLabels, append) — is tied to the real code by exact line-by-line correspondence under ASan/UBSan with an "
+        "allocation limit and a 20 s watchdog per op, in both tiers: all 16 importSparseData overloads (stream and file), csvStringToData "
+        "and importCSV (string and file, titleLines) for Data<RealVector/FloatVector/int/unsigned/float/double> and both labelled families, "
+        "exportCSV (unlabelled, class and vector labels; scientific on/off; field width) and exportSparseData (dense/sparse, float/double, "
+        "oneMinusOne, sortLabels, append): the written file is compared byte for byte, then imported again and compared value for value; "
+        "an independent oracle in the harness judges the round trip (values equal up to the printed precision, floats exactly, labels up "
+        "to the importer's shift) and the well-formedness clauses. Streams: grammar-directed files, byte mutations, a hostile generator "
+        "(huge / duplicate / descending / zero indices, odd labels, CR/LF mixes, trailing separators, NULs, long lines, numbers at the edge "
+        "of double/unsigned/int range, comments) — class histograms, outcomes and the library check that fired are in the evidence."),
+  note=TRUST + "boost::spirit's and iostream's own code is runtime evidence only (sanitizers + watchdog + exact comparison with the model over the "
+       "generated files); 'never hangs' is a theorem about the PEG model (parser_total), for the real parsers it is the watchdog; "
+       "numeric values are compared for tokens whose digits fit spirit's uint64 accumulator (<= 19 digits, any exponent); longer tokens and, "
+       "for the float scalar reader, anything but plain integers of <= 7 digits run for memory safety + oracle only; "
+       "the number formatting model (fmtE/fmtG) and the byte-level round trip parse(print d) are tied by exact correspondence, not proved — the "
+       "round-trip theorems are at token level with the separator outside the characters of a number as an explicit assumption; "
+       "libsvm_roundtrip is proved for regression labels and dense export (class label mappings and sparse inputs: correspondence + oracle); "
+       "sortLabels only for <= 13 elements (std::sort is unstable beyond 16). Open findings probed on every run: F10 (maximumBatchSize 0 divides "
+       "by zero), F11 (spirit leaves the iterator behind a number with out-of-range exponent: read as missing value / dropped), F12 (export_libsvm "
+       "cannot be instantiated); the model has the repaired behaviour, the generated stream avoids the triggers while the probes fail.",
+  technique="Lean 4 proof about an executable importer/exporter model + differential correspondence with the C++ (ASan/UBSan)",
+  design="§6 C19, §14 C19")
 
 FINISH = dict(level="proof",
-              rule="files from one SplitMix64 stream: grammar-directed mostly-valid LibSVM/CSV text with format variations, "
-                   "and byte-level mutations of those; a case is non-trivial if the file has at least 2 records; "
-                   "distinct = distinct op text")
+              rule="ops from one SplitMix64 stream: grammar-directed mostly-valid LibSVM/CSV text with format variations, byte-level "
+                   "mutations of those, hostile files of 13 named classes, scalar files, and export ops carrying random datasets "
+                   "(full-range doubles/floats, inf, nan, zeros, sparse/dense); a case is non-trivial if the file / dataset has at "
+                   "least 2 records; distinct = distinct op text")
 
 LAKE_TARGETS = ["SharkVerif.Props.C19", "drv_c19"]
 
@@ -597,6 +616,15 @@ def run(ctx):
     env = {"ASAN_OPTIONS": "detect_leaks=0:abort_on_error=0:allocator_may_return_null=1:max_allocation_size_mb=512"}
     tmp = os.path.join(core.CACHE, "tmp"); os.makedirs(tmp, exist_ok=True)
     cmp = strip_kind(ctx)
+    # compile probe: every exporter overload the property names must be instantiable (finding F12: export_libsvm)
+    probe = os.path.join(core.VERIF, "harness", "c19_export_libsvm_probe.cpp")
+    rc, out = core.sh(["g++", "-std=c++11", "-DNDEBUG", "-w", "-fopenmp", "-fsyntax-only", "-I" + ctx.shark_h(),
+                       "-I" + os.path.join(core.REPO, "include"), probe], timeout=600)
+    ctx.cov["probe_export_libsvm_instantiable"] = "passes" if rc == 0 else "fails"
+    if rc != 0:
+        m = re.search(r"error: [^\n]*", out)
+        ctx.violation("export:F12-export-libsvm-uninstantiable", {"compile": probe, "error": (m.group(0) if m else out[-500:])},
+                      found_input=True, what="export_libsvm(dataset, fn) does not compile: " + (m.group(0) if m else ""))
     # probe: maximumBatchSize = 0 (F10).  While the tree divides by zero there, the generated stream keeps maxB >= 1.
     pr = core.run_case(ctx, [exe, tmp], [drv], [PROBE_MAXB0], env=env, cmp=cmp)
     ctx.cov["probe_maxbatch_zero"] = "passes" if pr.ok else "fails"
